@@ -12,7 +12,7 @@ Import ListNotations.
 Open Scope Z_scope.
 
 Inductive transport := TPipe | TTcp | TUdp.
-Inductive kind := KUndecided | KMatchRead | KEmptyFbRead | KNonTermUndecided | KNonTermReadUndecided.
+Inductive kind := KUndecided | KMatchRead | KEmptyFbRead | KNonTermUndecided | KNonTermReadUndecided | KLateSubroute.
 Inductive oclass := OTimeout | OFull | ONetErr | ORan | OFallback | ONone.
 Inductive hres := RdNone | RdOk | RdFail.
 
@@ -57,6 +57,11 @@ Definition run_model (tr : transport) (k : kind) (timeout : Z) (n : tnet) : res 
   | KUndecided => serve tnet tnow sd rd tpush (need_rs undecided_routes) undecided_routes timeout (st_init n)
   | KMatchRead => serve tnet tnow sd rd tpush (need_rs matchread_routes) matchread_routes timeout (st_init n)
   | KNonTermUndecided => serve tnet tnow sd rd tpush (need_rs nonterm_undecided_routes) nonterm_undecided_routes timeout (st_init n)
+  | KLateSubroute =>
+      (* the outer route reads two bytes (blocking until the client's second message), then enters a subroute whose
+         route never decides; the subroute's deadline is ITS start + timeout *)
+      let rs := [Route [] [HCons 2; HSub undecided_routes timeout]] in
+      serve tnet tnow sd rd tpush (need_rs rs) rs timeout (st_init n)
   | KNonTermReadUndecided => serve tnet tnow sd rd tpush (need_rs nonterm_read_undecided_routes) nonterm_read_undecided_routes timeout (st_init n)
   | KEmptyFbRead =>
       compile tnet tnow sd rd tpush (need_rs []) 0 [] timeout
